@@ -38,8 +38,13 @@ def run(ctx):
     run_clear_rules(ctx, only_adt="tdigest::TDigest", floor=1)
     prog = ctx.prog
     selfp = ("param", 1, "self")
-    fu = ctx.anchor(CE + "::fuse")
-    if fu is not None:
+    fu = prog.fn(CE + "::fuse")
+    if fu is None:
+        # the helper may have been inlined into merge: the fused centroid is then an aggregate built in the fuse loop, and
+        # R16-conservation compares it with {count: a.count + b.count, sum: a.sum + b.sum} directly
+        ctx.ok("R16-fuse", CE + "::fuse", "no Centroid::fuse helper in this tree: the fused centroid is checked where it is built (R16-conservation)", nontrivial=False)
+    else:
+        ctx.analysed_fns.add(fu.key)
         r = TermBuilder(fu, prog).return_term()
         a, b = ("param", 1, "self"), ("param", 2, "other")
         want = {"count": mk("Add", ("field", a, "count"), ("field", b, "count")), "sum": mk("Add", ("field", a, "sum"), ("field", b, "sum"))}
